@@ -22,9 +22,11 @@ Proof.
   - intros u. rewrite HT. destruct (Nat.eqb_spec u t) as [->|Hne']; cbn [refs clk x'].
     + intros Hr. eapply cle_trans; [apply (J2 s I t Hr) | exact Hcc].
     + apply (J2 s I u).
-  - intros u. destruct (J3 s I u) as [H3|[h [Hh H3]]]; [left; exact H3|].
-    right. exists h. rewrite HT. destruct (Nat.eqb_spec h t) as [->|Hne']; cbn [refs clk x']; [|auto].
-    split; [lia|]. specialize (Hcc u). lia.
+  - intros Hl u. destruct (J3 s I Hl u) as [H3|[[h [Hh H3]]|[h [Hm H3]]]]; [left; exact H3| |].
+    + right. left. exists h. rewrite HT. destruct (Nat.eqb_spec h t) as [->|Hne']; cbn [refs clk x']; [|auto].
+      split; [lia|]. specialize (Hcc u). lia.
+    + right. right. exists h. rewrite HT. destruct (Nat.eqb_spec h t) as [->|Hne']; cbn [mustfree clk x']; [|auto].
+      split; [exact Hm|]. specialize (Hcc u). lia.
   - intros u. rewrite HT. destruct (Nat.eqb_spec u t) as [->|Hne']; cbn [mustfree clk pend x'].
     + intros Hm. destruct (J4 s I t Hm) as (Hl & H0 & HW & HR & Hu). repeat split; auto.
       * rewrite Htot; auto.
@@ -85,15 +87,18 @@ Proof.
     + destruct (Nat.eqb_spec u t) as [->|Hn2]; cbn [refs clk xp].
       * intros Hr. eapply cle_trans; [apply (J2 s I t ltac:(lia)) | exact Hcc].
       * apply (J2 s I u).
-  - intros u. destruct (J3 s I u) as [H3|[h [Hh H3]]]; [left; exact H3|].
-    right. destruct (Nat.eqb_spec h t) as [->|Hn2].
-    + (* holder was the parent: parent or child still holds *)
-      destruct (Nat.eq_dec k 0) as [->|Hk0].
-      * exists t. rewrite HT. destruct (Nat.eqb_spec t c); [congruence|]. rewrite Nat.eqb_refl. cbn [refs clk xp].
-        split; [lia|]. specialize (Hcc u). lia.
-      * exists c. rewrite HT. rewrite Nat.eqb_refl. cbn [refs clk xc]. split; [lia|]. specialize (Hcc2 u). lia.
-    + exists h. rewrite HT. destruct (Nat.eqb_spec h c) as [->|Hn1]; [lia|].
-      destruct (Nat.eqb_spec h t); [contradiction|]. auto.
+  - intros Hl u. destruct (J3 s I Hl u) as [H3|[[h [Hh H3]]|[h [Hm H3]]]]; [left; exact H3| |].
+    + right. left. destruct (Nat.eqb_spec h t) as [->|Hn2].
+      * (* holder was the parent: parent or child still holds *)
+        destruct (Nat.eq_dec k 0) as [->|Hk0].
+        -- exists t. rewrite HT. destruct (Nat.eqb_spec t c); [congruence|]. rewrite Nat.eqb_refl. cbn [refs clk xp].
+           split; [lia|]. specialize (Hcc u). lia.
+        -- exists c. rewrite HT. rewrite Nat.eqb_refl. cbn [refs clk xc]. split; [lia|]. specialize (Hcc2 u). lia.
+      * exists h. rewrite HT. destruct (Nat.eqb_spec h c) as [->|Hn1]; [lia|].
+        destruct (Nat.eqb_spec h t); [contradiction|]. auto.
+    + right. right. exists h. rewrite HT. destruct (Nat.eqb_spec h c) as [->|Hn1]; [congruence|].
+      destruct (Nat.eqb_spec h t) as [->|Hn2]; cbn [mustfree clk xp]; [|auto].
+      split; [exact Hm|]. specialize (Hcc u). lia.
   - intros u. rewrite HT. destruct (Nat.eqb_spec u c) as [->|Hn1]; cbn [mustfree xc]; [discriminate|].
     destruct (Nat.eqb_spec u t) as [->|Hn2]; cbn [mustfree clk pend xp].
     + intros Hm. destruct (J4 s I t Hm) as (Hl & H0 & HW & HR & Hu). repeat split; auto.
